@@ -14,7 +14,7 @@ class Grid:
         self.dx0 = float(dx)
         self.dy0 = float(dy if dy is not None else dx)
         self.metric_kind = metric
-        nx, ny = int(self.xmax) + 2, int(self.ymax) + 2
+        nx, ny = int(self.xmax) + 3, int(self.ymax) + 3
         self.M = np.ones((ny, nx), dtype=int)
         for j, i in land or []:
             self.M[j, i] = 0
